@@ -17,6 +17,7 @@ RULES = [
   (r"bitstr::Iter8<'a> as .*::next", r'BoundsCheck', r'Add\(Div', 'Lt(bitstr::cut_bits', 'second byte is read only when the first yielded fewer bits than requested (n < len), i.e. start+len crosses into byte idx+1 which lies below range.end: ' + I_BITSTR),
   (r"bitstr::Iter8<'a> as .*::next", r'BoundsCheck', r'', 'Lt((*arg1).pos', 'start < end <= 8*data.len(): ' + I_BITSTR),
   (r"bitstr::Iter8<'a> as .*::next", r'Overflow\(Shl\)', r'', 'Lt(bitstr::cut_bits', 'val: u8 shifted by n2 = bits taken from the next byte, n2 = len - n <= 7 because n >= 1 (cut_bits returns at least one bit when start < end)'),
+  (r'cell::Cell as core::fmt::Debug>::fmt', r'call:str-index', r'RangeTo', 'call str::<impl str>::char_indices', 'cut is the last index yielded by s.char_indices() that is <= STR_ELIDE_LEN, or 0: a char boundary of s, <= s.len()'),
   (r'cell::Cell as core::fmt::Debug>::fmt', r'Overflow\(Shl\)', r'', '-', '1 << i with i in (0..n).rev() and n <= 8 (bit count of an iter8 item, reduced by 4 above): i <= 7 on an i32 literal'),
   (r'cell::Cell as core::fmt::Debug>::fmt', r'Overflow\(Shr\)', r'', 'Gt(', 'x >> n after `if n > 4 { n -= 4 }`: n <= 4 (iter8 item widths are <= 8)'),
   (r'error::Xerr as core::fmt::Display>::fmt', r'.*', r'MatchErr', '-', 'MatchError is built only by word_magic with fail_pos = position() of the first differing bit (or 0), which is < src.len(): split_at(fail_pos) is Some and start+fail_pos < end'),
